@@ -22,7 +22,7 @@ RULE = (
     "result (L0 identical copy -> no marks; L1 result minus removed/moved-away == T1 as unordered labelled tree; L2 "
     "children minus added/moved-here == T0 child list in order below common nodes; L3 one-sided marks exactly on "
     "one-sided children; L4 moved-here <-> moved-away with equal data; L5 order marks == (index in T0, index in T1), "
-    "iff ordered and different; L6 reduce keeps exactly marked nodes + ancestors; L7 inputs unchanged - half of the cases put user metadata on some input nodes before the comparison), with nodes "
+    "iff ordered and different; L6 reduce keeps exactly marked nodes + ancestors; L7 inputs unchanged; L8 result nodes carry the data_id of the input nodes they stand for - a third of the cases give some labels an explicit data_id (the same in both trees), half of the cases put user metadata on some input nodes before the comparison), with nodes "
     "identified by their label path (sibling labels are unique). Non-trivial: >= 1 one-sided child and >= 1 common "
     "child that has children; distinct = distinct case."
 )
@@ -95,8 +95,16 @@ def run(case, rec):
     spec0 = case["t0"]
     spec1 = apply_edits(spec0, case["edits"]) if "edits" in case else case["t1"]
     ordered, reduce_ = case["ordered"], case["reduce"]
-    t0, nodes0 = build(spec0, name="T0")
-    t1, nodes1 = build(spec1, name="T1")
+    # some labels carry an explicit data_id (the same one in both trees): diff() matches nodes by data_id
+    idmap = set(case.get("explicit_ids") or [])
+
+    def with_ids(spec):
+        return [[n[0], with_ids(n[1])] + ([{"id": "id-" + n[0]}] if n[0] in idmap else []) for n in spec]
+
+    if idmap:
+        rec.cls("explicit-data_ids")
+    t0, nodes0 = build(with_ids(spec0), name="T0")
+    t1, nodes1 = build(with_ids(spec1), name="T1")
     # user metadata on some input nodes (set before the comparison): it is part of the inputs' observable state
     for nodes_, idxs in ((nodes0, case.get("meta0") or []), (nodes1, case.get("meta1") or [])):
         for i in idxs:
@@ -138,6 +146,13 @@ def run(case, rec):
             return
         R[p] = n
         Rkids[p] = [c.data for c in w.kids[id(n)]]
+
+    # L8: a result node stands for input node(s) with the same data: it carries their data_id
+    for p, n in R.items():
+        want = ("id-" + p[-1]) if p[-1] in idmap else hash(p[-1])
+        if n.data_id != want:
+            rec.fail("L8:result-node-data_id", {"path": list(p), "got": repr(n.data_id), "exp": repr(want)})
+            return
 
     common = {p for p in P0 if p in P1}
     removed = {p for p in P0 if p not in P1 and p[:-1] in common}
@@ -335,6 +350,8 @@ def hyp_cases(draw, tier):
             st.tuples(st.just("move"), st.integers(0, 30), st.integers(0, 5), st.integers(0, 30), st.integers(0, 5)),
         )
         case["edits"] = [list(e) for e in draw(st.lists(edit, min_size=1, max_size=6))]
+    if draw(st.sampled_from([0, 0, 1])):
+        case["explicit_ids"] = draw(st.lists(st.sampled_from(LABELS + ["x"]), min_size=1, max_size=4, unique=True))
     if draw(st.sampled_from([0, 1])):
         case["meta0"] = draw(st.lists(st.integers(0, 13), min_size=1, max_size=4))
         case["meta1"] = draw(st.lists(st.integers(0, 13), min_size=0, max_size=4))
